@@ -504,6 +504,12 @@ def check_c02(res, tier, replay):
     for comp, f in findings.items():
         if known_seen.get(comp):
             res.known_hit.append(known_line(f) + ' [%d cases]' % known_seen[comp])
+    if not replay:
+        # the warm-up follows the *current* configuration: an instance re-configured after a first Compute emits what a fresh one does
+        from c_runtime import check_reconf
+        rc_n, rc_bad = check_reconf(res, rng, tier, ('IND',), 'C02')
+        bad_cases += rc_bad
+        res.coverage['reconfigured_after_use'] = rc_n
     res.samples = [{'case': lines[i][:200] + '…', 'go': go.get(lines[i].split(' ')[0], '')[:160]} for i in (0, len(lines) // 2)] if lines else []
     res.coverage.update({
         'evaluations': len(cases), 'distinct_nontrivial': len(cells),
